@@ -309,7 +309,11 @@ func undefDomain(bal []uint64, ratio float64, value uint64, sel []int) bool {
 	if f64ops.UndefU64(p) {
 		return true
 	}
-	vl := value - uint64(p)
+	sc := uint64(p)
+	if sc > value {
+		sc = value // the cap of stakepool.go:436/621
+	}
+	vl := value - sc
 	if vl < math.MaxUint64-1023 {
 		return false
 	}
@@ -651,7 +655,7 @@ func main() {
 	one := f64ops.Hex(1.0)
 	fixed := f64ops.Fixed()
 	fixed = append(fixed,
-		// DESIGN §7 #4: value 2^53+3 at ratio 1.0 — float64(value) rounds up, the provider is credited value+1
+		// DESIGN §7 #4 (repaired by 20328ad): value 2^53+3 at ratio 1.0 — float64(value) rounds up; the charge is capped at the value
 		[]string{"sp 0 " + one + " 0 0 1000:0 1000:0", "dist 9007199254740995", "dump"},
 		[]string{"sp 0 " + one + " 0 0 1000:0 1000:0", "randn 9007199254740995 2 - 1 new", "dump"},
 		// exact cases
